@@ -1343,6 +1343,17 @@ func runCase(o *outT, idx int, seed uint64) (rspec *caseSpec, rwant []string) {
 			vals, info, err := R.bo.commitBlock(sdb, blk.Transactions(), blk.Header(), beginBlockInfo(R, blk), nil)
 			if err != nil {
 				o.Count("exec:commitBlock-error")
+				if os.Getenv("C06_DEBUG") != "" {
+					d, _ := R.bc.State()
+					_, e1 := stkUtil.Mint(d, blk.Header(), R.bc, kvm.Config{})
+					ci := beginBlockInfo(R, blk)
+					e2 := stkUtil.FinalizeCommit(d, blk.Header(), R.bc, kvm.Config{}, ci)
+					_, e3 := stkUtil.ApplyAndReturnValidatorSets(d, blk.Header(), R.bc, kvm.Config{})
+					fmt.Fprintln(os.Stderr, "DEBUG commitBlock:", err, "mint:", e1, "finalize:", e2, "valsets:", e3, "votes:", len(ci.Votes), valsStr(R.st.LastValidators, false), "cur", valsStr(R.st.Validators, false), "next", valsStr(R.st.NextValidators, false))
+					for _, v := range ci.Votes {
+						fmt.Fprintln(os.Stderr, "   vote", v.Address.Hex(), v.VotingPower, v.SignedLastBlock)
+					}
+				}
 				return
 			}
 			if sdb.VerifJournalLen() != 0 {
